@@ -1293,12 +1293,13 @@ func VerifyRuntimeUpdate(
 	// Validate the deployments.
 	activeDeployment := currentRt.ActiveDeployment(now)
 	if err := currentRt.ValidateDeployments(now, params, isFeatureVersion261); err != nil {
-		// Invariant violation, this should NEVER happen.
-		logger.Error("RegisterRuntime: malformed deployments present in state",
+		// This can only happen when the consensus parameters have changed since the runtime was
+		// registered (e.g. the maximum number of deployments has been lowered by governance).
+		logger.Error("RegisterRuntime: deployments present in state are not valid (anymore)",
 			"runtime_id", currentRt.ID,
 			"err", err,
 		)
-		panic(fmt.Sprintf("RegisterRuntime: malformed deployments present in state: %s: %v", currentRt.ID, err))
+		return fmt.Errorf("%w: existing deployments are not valid: %w", ErrRuntimeUpdateNotAllowed, err)
 	}
 	existingDeployments := make(map[version.Version]*VersionInfo)
 	for i, deployment := range currentRt.Deployments {
